@@ -101,6 +101,11 @@ Allowed(e) ==
     \* inside: len_sqr() <= 1 as the library measures it (exact f32 comparison); unit length is judged at 1e-3
     [] e.op = "norm"  -> IF e.kind = "in" THEN e.inside = 1 /\ e.n2 <= 1048576 + 1100
                          ELSE (e.n2 >= 1048576 - 1100 /\ e.n2 <= 1048576 + 1100)
+    \* unit circle / sphere samples under another float backend (e.be; "libm+mm" = both features on, where libm
+    \* has precedence): unit length at 1e-3 - at 2.5 % for the approximating backends (mm alone, none)
+    [] e.op = "normb" -> /\ e.panic = 0
+                         /\ LET tol == IF e.be \in {"mm", "none"} THEN 26214 ELSE 1100 IN
+                            e.n2 >= 1048576 - tol /\ e.n2 <= 1048576 + tol
     [] e.op = "seq"   -> e.a = e.b
     [] OTHER -> FALSE
 =============================================================================
